@@ -16,12 +16,16 @@ import (
 	"encoding/json"
 	"fmt"
 	"reflect"
+	"runtime"
 	"strings"
 	"sync"
+	"sync/atomic"
 	"time"
 
 	"verif/harness/hx"
 )
+
+var spinSink int64 // written by the delay loops, never read
 
 type objT struct {
 	A int `json:"a"`
@@ -148,23 +152,39 @@ func (e *env) runFirstAppends(cfg roundCfg, watchdog time.Duration, rep *hx.Repo
 	}
 	defer st.cleanup()
 	kv := st.kv
+	jitter := hx.NewRand(cfg.seed + uint64(cfg.g)*977 + uint64(cfg.m))
 	finished := hx.WithTimeout(watchdog, func() {
 		for i := 0; i < cfg.m && len(fails) == 0; i++ {
 			key := fmt.Sprintf("fresh%d", i)
 			res := make([]string, cfg.g)
-			start := make(chan struct{})
+			// a spinning barrier releases the goroutines within nanoseconds of each other; a small
+			// per-goroutine delay, different for every key, slides their calls across one another
+			var ready, goFlag int32
 			var wg sync.WaitGroup
 			for g := 0; g < cfg.g; g++ {
 				wg.Add(1)
-				go func(g int) {
+				delay := int(jitter.U64() % 4000)
+				if g == 0 || i%3 == 0 {
+					delay = 0
+				}
+				go func(g, delay int) {
 					defer wg.Done()
 					b := caller(fmt.Sprintf("[%d]", g))
-					<-start
+					atomic.AddInt32(&ready, 1)
+					for atomic.LoadInt32(&goFlag) == 0 {
+						runtime.Gosched()
+					}
+					for k := 0; k < delay; k++ {
+						spinSink++
+					}
 					res[g] = classify("appendBytes", kv.AppendBytes(key, b))
 					scribble(b)
-				}(g)
+				}(g, delay)
 			}
-			close(start)
+			for atomic.LoadInt32(&ready) < int32(cfg.g) {
+				runtime.Gosched()
+			}
+			atomic.StoreInt32(&goFlag, 1)
 			wg.Wait()
 			rep.Count("first-append-keys:" + cfg.backend)
 			final := ""
